@@ -55,6 +55,20 @@ fn main() {
         };
         check_input(&PLax { open, quot }, loc)
     }));
+    // as many pending pairs as nodes, no bystander node needed: every list of 4 pairs on exactly 4 nodes (thorough: 5 on
+    // 4 nodes, and 5 on 5 equally labelled nodes) - redundant pairs before a bridging one, trees joined through inner nodes
+    let full: Vec<Spec> = if quick {
+        vec![Spec { n_min: 4, n_max: 4, e_min: 0, e_max: 0, ks: 0, kt: 0, lw: 2, lx: 1, a: 0, b: 0, q: 4 }]
+    } else {
+        vec![
+            Spec { n_min: 4, n_max: 4, e_min: 0, e_max: 0, ks: 0, kt: 0, lw: 2, lx: 1, a: 0, b: 0, q: 5 },
+            Spec { n_min: 5, n_max: 5, e_min: 0, e_max: 0, ks: 0, kt: 0, lw: 1, lx: 1, a: 0, b: 0, q: 5 },
+        ]
+    };
+    for fs in full {
+        let fu = fs.universe();
+        ctx.run_slice(Slice::new(format!("q-many-pairs[{}]", fs.name()), fu.count(), move |i, loc| check_input(&fu.get(i), loc)));
+    }
     // un-quotiented presentations of strict diagrams: as many pending pairs as repeated node occurrences
     let xs = if quick { Spec::open(3, 1, 2, 2, 2, 2, 2) } else { Spec::open(3, 2, 2, 1, 2, 2, 2) };
     let xu = xs.universe();
